@@ -64,7 +64,10 @@ def run_tlc(module, cfg=None, *, workdir, env=None, workers=16, timeout=900, sim
     tag = f"{module}_{os.getpid()}_{int(time.time() * 1000) % 100000000}_{next(_COUNTER)}"
     metadir = workdir / ("meta_" + tag)
     out_path = workdir / (tag + ".out")
-    cmd = ["java", "-XX:+UseParallelGC", f"-Xmx{heap}", "-Xss64m"]     # deep (but finite) recursive definitions
+    jtmp = workdir / ("jtmp_" + tag)       # TLC leaves an empty tlc-<n> directory in java.io.tmpdir on every run: keep it out of /tmp
+    jtmp.mkdir(parents=True, exist_ok=True)
+    cmd = ["java", "-XX:+UseParallelGC", f"-Xmx{heap}", "-Xss64m",     # deep (but finite) recursive definitions
+           f"-Djava.io.tmpdir={jtmp}"]
     if dfs:
         cmd.append("-Dtlc2.tool.queue.IStateQueue=StateDeque")
     cmd += ["-cp", JAR_CP, "tlc2.TLC", "-workers", str(workers), "-metadir", str(metadir),
@@ -94,9 +97,11 @@ def run_tlc(module, cfg=None, *, workdir, env=None, workers=16, timeout=900, sim
         code = p.returncode
     except subprocess.TimeoutExpired:
         shutil.rmtree(metadir, ignore_errors=True)
+        shutil.rmtree(jtmp, ignore_errors=True)
         raise MachineryError(f"TLC timeout after {timeout}s: {module} ({out_path})")
     wall = time.time() - t0
     shutil.rmtree(metadir, ignore_errors=True)
+    shutil.rmtree(jtmp, ignore_errors=True)
     res = TLCResult(module=module, cfg=str(cfg_path), exit_code=code, wall_s=wall)
     lines = []
     with open(out_path, errors="replace") as fi:
